@@ -67,7 +67,7 @@ From NV Require Import Equiv.StaticGlue Gen.StaticGen.
 From NV Require Gen.PyGen.
 From NV Require Equiv.EquivStatic.
 Theorem C05_code_handle_tie : forall flt tok c f url,
-  norm_resp (gen_handle (model_lib flt tok) c f url) = resp_of_sout (handle c f url).
+  norm_resp (gen_handle (model_lib flt tok) c f url) = resp_of_sout url (handle c f url).
 Proof. exact EquivStatic.handle_tie. Qed.
 Print Assumptions C05_code_handle_tie.
 
